@@ -9,3 +9,11 @@ void _ZN13QXmppLoggableC2EP7QObject(char *self, char *parent) { vp_qobject_init(
    fallback hands to the application with iqReceived(); its content is not C08's subject -> empty element */
 void _ZN12QXmppElementC1ERK11QDomElement(char *self, char *el) { F_vp_c08_elem_default(self); }
 void _ZN12QXmppElementC2ERK11QDomElement(char *self, char *el) { F_vp_c08_elem_default(self); }
+/* link state of the connected client: QXmppConfiguration::streamSecurityMode() and QSslSocket::isEncrypted() are harness-controlled */
+static uint32_t c08_secmode; static uint8_t c08_encrypted;
+void vp_c08_set_link(uint32_t mode, uint8_t enc) { c08_secmode = mode; c08_encrypted = enc; }
+uint32_t _ZNK18QXmppConfiguration18streamSecurityModeEv(char *self) { return c08_secmode; }
+uint8_t _ZNK10QSslSocket11isEncryptedEv(char *self) { return c08_encrypted; }
+/* branches of QXmppOutgoingClient::handleElement that an <iq xmlns='jabber:client'/> cannot take (stream features, stream errors): flagged if reached */
+void _ZN19QXmppStreamFeatures5parseERK11QDomElement(char *self, char *el) { ASSERT(0, "C08: stream features parsed for an iq element"); }
+void _ZN19QXmppOutgoingClient20handleStreamFeaturesERK19QXmppStreamFeatures(char *self, char *f) { ASSERT(0, "C08: handleStreamFeatures reached for an iq element"); }
